@@ -21,7 +21,7 @@ impl From<f64> for Number {
     fn from(value: f64) -> Self {
         let floored_value = value.floor();
         if (value - floored_value) == 0.0 {
-            if floored_value >= (i64::MIN as f64) && floored_value <= (i64::MAX as f64) {
+            if floored_value >= (i64::MIN as f64) && floored_value < (i64::MAX as f64) {
                 Number::Integer(floored_value as i64)
             } else {
                 Number::Float(value)
